@@ -201,6 +201,8 @@ func c04NumLeaves() []*lib.Node {
 		lib.Int(0), lib.Int(1), lib.Int(2), lib.Int(3), lib.Int(7),
 		lib.Float("0.5"), lib.Float("1.5"), lib.Float("2.0"), lib.Float("0.25"),
 		lib.Call("int", lib.Value()), lib.Call("float", lib.Value()), lib.Call("strlen", lib.Key()),
+		// constant calls that fold: a whole float must stay a float
+		lib.Call("float", lib.Int(3)), lib.Call("float", lib.Str("2")), lib.Call("int", lib.Str("7")),
 	}
 }
 
